@@ -8,6 +8,16 @@ TB = ("Trusted: go/ssa (source->SSA), the govc executor/contract evaluator, the 
       "externals and physical bounds are listed in the evidence file on every run.")
 
 CLAIMS = {
+ "C01": dict(
+   text="Deductive proof of message framing as an invariant over all builder histories: (1) every constructor of a controller-originated message (hello, echo request/reply, features/get-config request, set-config, flow-mod, group-mod, packet-out, port-mod, Nicira vendor messages, bundle control/add) is proved to establish wf(msg), which fixes Header.Version == 4 and Header.Type == the ofp_type code of the kind (automatic 'ensures wf(result)' contract on every New* function); (2) every adder (AddInstruction, AddBucket, AddAction, SetData, Match.AddField, Bucket/InstrActions/conntrack AddAction) is proved to preserve wf; (3) every top-level MarshalBinary is proved, for ALL command variants (Command is symbolic; delete variants are paths), all symbolic numbers of instructions/buckets/actions/fields and children of unknown dynamic type, to return bytes with data[0] == 4, data[1] == type code, be16(data,2) == len(data) == int(Len()) and to stamp Header.Length with that value; bundle-add and vendor wrappers embed ANY message through the interface contract, so nesting depth is unbounded. Header-only messages are closed by lemma functions executed from constructor to bytes.",
+   note="Precondition: the value fits in 65535 bytes (as in the statement). Multipart requests and barrier requests have no constructor in the library: their wf (version/type set from the header generator) is assumed, the encoder part is proved. InstrActions.AddAction is under contract for the append path only (the prepend path appends a symbolic-length list, outside the executor's subset). " + TB,
+   technique="contract-based deductive verification: representation invariant (wf) established by constructors / preserved by builders, byte-level framing postconditions with sum() loop invariants; QF_AUFBV, z3/cvc5",
+   design="DESIGN.md section 4 C01"),
+ "C02": dict(
+   text="Deductive proof: every type implementing openflow13.Action or openflow13.Instruction inherits the interface contract 'be16(bytes,0) == type code of the kind, be16(bytes,2) == len(bytes), len(bytes) % 8 == 0' and, for type 0xffff, 'vendor == 0x00002320 and subtype == the NXAST code of the kind' (type codes from ofp_action_type / ofp_instruction_type / nicira-ext.h written as spec constants, not taken from the code); match (type 1, length = 4 + fields without padding, padded to 8), match field (class, field<<1|mask, body length), bucket (length = bytes, 8-aligned) and hello element have explicit clauses. Stored length fields are part of wf and proved to be established by every constructor and preserved by every builder (Match.AddField, PacketOut.AddAction, InstrActions.AddAction, conntrack AddAction: induction over all builder histories using sum() over appended lists); NAT, learn, note, reg-load2, controller, bucket encoders are proved to stamp their length with exactly their size. Since every element declares exactly the bytes it occupies and containers are concatenations (C06), a walk by declared lengths ends exactly at the end of the message.",
+   note="Known findings (reported, not failing the check): ActionHeader/ActionMplsTtl/ActionNwTtl/InstrMeter encode 4-byte elements (missing codecs), hello version-bitmap element not padded for an even number of bitmaps. Learn-spec, TLV-map and bundle-property elements are covered for size only (C06). " + TB,
+   technique="contract-based deductive verification: interface contracts with per-kind type-code spec functions, wf preservation by builders; QF_AUFBV, z3/cvc5",
+   design="DESIGN.md section 4 C02"),
  "C06": dict(
    text="Deductive proof, for values of symbolic size (all field values, all list lengths, children of unknown dynamic type): every one of the 123 types that implement util.Message (openflow13, common, protocol, util) inherits the interface contract 'Len() == uint16(size(self))' and 'MarshalBinary() returns exactly size(self) bytes, err == nil' for well-formed values whose size fits 16 bits, where size() is a per-kind spec function (header + sum of children + specified padding). Containers are verified against their children's contract only (behavioural subtyping: each implementer's obligations include the interface clauses; a lookup of all implementers is mechanical), with loop invariants over sum() for every child list; every copy() in a make(Len())+copy encoder is proved not to truncate its source (enc/notrunc), so no child byte is dropped. 8/16-bit size arithmetic is bit-precise.",
    note="What is NOT yet proved here: that each child's bytes sit unmodified at their offset (byte-level embedding) - sizes, non-truncation and frames are. DHCP and LLDP (Read/Write API, not util.Message) are outside this check. wf(x) (pad buffers not longer than their slot, counts consistent with lists, non-nil mandatory children) is assumed as precondition; constructors/builders establishing it are checked under C01/C02 where claimed. " + TB,
